@@ -1,14 +1,20 @@
 CONSTANTS Keys = {"a", "b"}
-          NHol = 3
-          NWk = 3
+          NHol = 5
+          NWk = 4
+          NLo = 3
+          NHi = 3
+          ConAdjs = {"f", "p", "m"}
           Rich = TRUE
           MaxObj = 2
           Depth = 0
           KeepHist = FALSE
+          Fan = 0
 INIT Init
 NEXT Next
 INVARIANT WellFormed
 INVARIANT FetchReflectsLast
+INVARIANT FetchReflectsConfig
+INVARIANT WellConfigured
 INVARIANT TableFresh
 INVARIANT PathsAgree
 PROPERTY OneKeyPerStep
